@@ -2,6 +2,7 @@ package props
 
 import (
 	"fmt"
+	"strconv"
 	"sort"
 	"strings"
 
@@ -16,7 +17,7 @@ var (
 	c04Left  = []string{"LEFT JOIN", "LEFT HASH_JOIN", "PARALLEL LEFT JOIN", "PARALLEL LEFT HASH_JOIN"}
 	c04Right = []string{"RIGHT JOIN", "RIGHT HASH_JOIN", "PARALLEL RIGHT JOIN", "PARALLEL RIGHT HASH_JOIN"}
 	c04Floor = []string{"type.inner", "type.left", "type.right", "on.equi", "on.nonequi", "on.or", "on.multi", "on.flipped", "keys.str", "keys.num", "dupkeys",
-		"left.empty", "right.empty", "unmatched.left", "unmatched.right", "meta.permute", "meta.flip"}
+		"left.empty", "right.empty", "unmatched.left", "unmatched.right", "meta.permute", "meta.flip", "keys.mixed-kind"}
 )
 
 func init() {
@@ -56,14 +57,25 @@ type c04Case struct {
 	nonEqu bool
 }
 
-func c04Tables(c *fw.Case, forceEmpty string) (*gen.Table, *gen.Table) {
+func c04Tables(c *fw.Case, forceEmpty string, mixed bool) (*gen.Table, *gen.Table) {
 	maxRows := pick(c.Tier, 10, 30)
 	nums := []any{1.0, 2.0, 3.0, 1.5, -1.0, 10.0}
+	if mixed {
+		nums = []any{9.0, 10.0, 3.0, 25.0, 1.5, -1.0, 100.0}
+	}
 	nums = nums[:2+c.Intn(len(nums)-1)]
+	// mixed kinds: the right table's key columns hold the decimal texts of numbers
+	rnums := nums
+	if mixed {
+		rnums = make([]any, len(nums))
+		for i, v := range nums {
+			rnums[i] = strconv.FormatFloat(v.(float64), 'f', -1, 64)
+		}
+	}
 	strs := []any{"a", "b", "a-", "-b", "-", "a-b", "1", "1-", " ", "ab", "A", ""}
 	c.R.Shuffle(len(strs), func(i, j int) { strs[i], strs[j] = strs[j], strs[i] })
 	strs = strs[:2+c.Intn(5)]
-	mk := func(name string, cols [3]string, empty bool) *gen.Table {
+	mk := func(name string, cols [3]string, empty bool, nums []any) *gen.Table {
 		t := &gen.Table{Name: name, Pools: map[string][]any{cols[0]: nums, cols[1]: strs, cols[2]: nums}}
 		n := c.Intn(maxRows + 1)
 		if c.Chance(0.5) && n > 6 {
@@ -77,7 +89,7 @@ func c04Tables(c *fw.Case, forceEmpty string) (*gen.Table, *gen.Table) {
 		}
 		return t
 	}
-	return mk("l", [3]string{"a", "z", "k"}, forceEmpty == "left.empty"), mk("r", [3]string{"m", "b", "j"}, forceEmpty == "right.empty")
+	return mk("l", [3]string{"a", "z", "k"}, forceEmpty == "left.empty", nums), mk("r", [3]string{"m", "b", "j"}, forceEmpty == "right.empty", rnums)
 }
 
 // c04On builds an ON tree. Column operands are named "x.a" / "y.m".
@@ -179,7 +191,7 @@ func c04Respell(c *fw.Case, p gen.Pred, flip, permute bool) gen.Pred {
 	return p
 }
 
-func c04Ref(l, r *gen.Table, on gen.Pred, jtype string) ([]any, int, int, int, error) {
+func c04Ref(l, r *gen.Table, on gen.Pred, jtype string, mixed bool) ([]any, int, int, int, error) {
 	var out []any
 	matchedL := make([]bool, len(l.Rows))
 	matchedR := make([]bool, len(r.Rows))
@@ -188,6 +200,10 @@ func c04Ref(l, r *gen.Table, on gen.Pred, jtype string) ([]any, int, int, int, e
 		for j, rr := range r.Rows {
 			env := map[string]any{}
 			for k, v := range lr {
+				if f, isNum := v.(float64); isNum && mixed && k != "rid" {
+					// a number against a string is ordered by the number's decimal text
+					v = strconv.FormatFloat(f, 'f', -1, 64)
+				}
 				env["x."+k] = v
 			}
 			for k, v := range rr {
@@ -232,8 +248,12 @@ func c04Diff(c *fw.Case, par bool) {
 	if c.Idx < 2*len(c04Floor) {
 		force = c04Floor[c.Idx%len(c04Floor)]
 	}
-	l, r := c04Tables(c, force)
+	mixed := force == "keys.mixed-kind" || (force == "" && c.Chance(0.12))
+	l, r := c04Tables(c, force, mixed)
 	on, feats := c04On(c, force)
+	if mixed {
+		feats = append(feats, "keys.mixed-kind")
+	}
 	jtype := gen.Pick(c.R, []string{"inner", "left", "right"})
 	switch {
 	case strings.HasPrefix(force, "type."):
@@ -254,7 +274,7 @@ func c04Diff(c *fw.Case, par bool) {
 		}
 	}
 	feats = append(feats, "type."+jtype)
-	want, pairs, ul, ur, err := c04Ref(l, r, on, jtype)
+	want, pairs, ul, ur, err := c04Ref(l, r, on, jtype, mixed)
 	if err != nil {
 		c.Discard("reference: " + err.Error())
 		return
